@@ -17,6 +17,8 @@ import ZarrsModel.Driver.C19
 import ZarrsModel.Driver.C20
 import ZarrsModel.Driver.C02Shard
 import ZarrsModel.Driver.C03Chain
+import ZarrsModel.Driver.C02Vlen
+import ZarrsModel.Driver.C05Chain
 /-
 Line-protocol driver: reads `request -> implementation outcome` lines, replays each request through the
 model's executable definitions and prints one verdict line per disagreement:
@@ -43,10 +45,13 @@ def dispatch (st : DState) (l : Line) : Option (DState × List String × Option 
     if l.verbs[1]? == some "chains" || l.verbs[1]? == some "chaindec" then
       (DriverC03Chain.handle l).map (fun (a, n) => (st, a, n))
     else (DriverC03.handle l).map (fun a => (st, a, none))
+  | some "c02v" => (DriverC02V.handle l).map (fun (a, n) => (st, a, n))
   | some "c02s" => (DriverC02S.handle l).map (fun (a, n) => (st, a, n))
   | some "c02" => (DriverC01.handle st.c01 l).map (fun (s, a, n) => ({ st with c01 := s }, a, n))
   | some "c04" => (DriverC01.handle st.c01 l).map (fun (s, a, n) => ({ st with c01 := s }, a, n))
-  | some "c05" => (DriverC05.handle st.c05 l).map (fun (s, a, n) => ({ st with c05 := s }, a, n))
+  | some "c05" =>
+    if l.verbs[1]? == some "pes" || l.verbs[1]? == some "pesr" then (DriverC05Chain.handle l).map (fun (a, n) => (st, a, n)) else
+    (DriverC05.handle st.c05 l).map (fun (s, a, n) => ({ st with c05 := s }, a, n))
   | some "c06" => (DriverC01.handle st.c01 l).map (fun (s, a, n) => ({ st with c01 := s }, a, n))
   | some "c01" => (DriverC01.handle st.c01 l).map (fun (s, a, n) => ({ st with c01 := s }, a, n))
   | some "c08" => (DriverC08.handle st.c08 l).map (fun (s, a, n) => ({ st with c08 := s }, a, n))
@@ -86,6 +91,7 @@ partial def loop (h : IO.FS.Stream) (st : DState) (n : Nat) (ok diff bad : Nat) 
 
 def main (args : List String) : IO UInt32 := do
   -- `driver --gen c18 <tier> <seed>`: the driver is the case generator where only the model knows the valid cases
+  if args == ["--pes-stats"] then DriverC05Chain.statsMain; return 0
   if let ["--gen", "c18", tier, seed] := args then
     for l in DriverC18.genCases tier (seed.toNat?.getD 1) do IO.println l
     return 0
